@@ -46,6 +46,9 @@ def build(ck):
         _bands(ck, 2, 3)
     if want("h1"):
         _h1(ck, 1, 6)
+        _h1_bands(ck, 1, 6)
+        if thorough:
+            _h1_bands(ck, 2, 4)
     if want("correlation"):
         _correlation(ck)
     if want("resolution"):
@@ -182,6 +185,30 @@ def _h1(ck, D, N):
     enc.validate(ck, what="h1")
     pre = [ins[0].s > 0] + enc.interp.sound_facts() + _floor_pre(enc.interp)
     ck.add(f"h1/D{D}N{N}/H1_MSE=MSE+gradient-MSE", sym.equal_goal(enc.outs[0][()], enc.outs[1][()]), pre, family="Sobolev metric = value term + gradient term (Nyquist-free states)", timeout=300)
+
+
+def _h1_bands(ck, D, N):
+    """every Sobolev metric, with and without a frequency band, is the plain Fourier metric plus the Fourier metric of the
+    first spectral derivative ON THE SAME BAND (the value term and the gradient term are themselves tied to the spatial
+    metrics by the Parseval and H1_MSE obligations)"""
+    ins = [In("L", (), lo=0.5, hi=2.0), In("u", (1,) + (N,) * D), In("v", (1,) + (N,) * D)]
+    pairs = [("MAE", M.H1_MAE, M.fourier_MAE), ("nMAE", M.H1_nMAE, M.fourier_nMAE), ("MSE", M.H1_MSE, M.fourier_MSE), ("nMSE", M.H1_nMSE, M.fourier_nMSE), ("RMSE", M.H1_RMSE, M.fourier_RMSE), ("nRMSE", M.H1_nRMSE, M.fourier_nRMSE)]
+    bands = [(None, None), (2, 2), (1, 2), (2, N // 2)]
+    for nm, h1, plain in pairs:
+        for low, high in bands:
+            def f(L, u, v, h1=h1, plain=plain, low=low, high=high):
+                return h1(u, v, domain_extent=L, low=low, high=high), plain(u, v, domain_extent=L, low=low, high=high) + plain(u, v, domain_extent=L, low=low, high=high, derivative_order=1)
+
+            enc = Encoded(f, ins, tag=f"hb{nm}{low}{high}")
+
+            def replay(model, f=f, nm=nm, low=low, high=high):
+                rng = np.random.default_rng(3)
+                u = jnp.asarray(rng.normal(size=(1,) + (N,) * D))
+                v = jnp.asarray(rng.normal(size=(1,) + (N,) * D))
+                a, b = f(1.3, u, v)
+                return {"reproduced": abs(float(a) - float(b)) > 1e-9 * max(1.0, abs(float(b))), "detail": f"H1_{nm}(low={low}, high={high}) = {float(a)!r}, value term + gradient term on the same band = {float(b)!r} (random pair, D={D}, N={N}, L=1.3)"}
+
+            ck.add(f"h1/D{D}N{N}/H1_{nm}/band={low}-{high}", sym.equal_goal(enc.outs[0][()], enc.outs[1][()]), [ins[0].s > 0] + enc.interp.sound_facts(), family="Sobolev metric = value term + gradient term on the same band", timeout=120, replay=replay)
 
 
 def _correlation(ck):
